@@ -259,6 +259,16 @@ func (e *Engine) computeModsets() {
 					cc = &x.Call
 				}
 				if cc != nil {
+					if gc := e.namedDynContract(cc); gc != nil && gc.HasMod {
+						env := map[string]types.Type{}
+						for i, a := range cc.Args {
+							if i < len(gc.Params) {
+								env[gc.Params[i]] = a.Type()
+							}
+						}
+						ms.addAll(modCompsEnv(gc, env))
+						continue
+					}
 					if ftc := e.funcTypeContract(cc); ftc != nil && ftc.HasMod {
 						env := map[string]types.Type{}
 						if len(ftc.Params) > 0 {
@@ -432,6 +442,16 @@ func (e *Engine) callMods(cc *ssa.CallCommon) compSet {
 			ms.addAll(e.contractModCompsSig(con, cc.Signature(), true))
 			return ms
 		}
+	}
+	if gc := e.namedDynContract(cc); gc != nil && gc.HasMod {
+		env := map[string]types.Type{}
+		for i, a := range cc.Args {
+			if i < len(gc.Params) {
+				env[gc.Params[i]] = a.Type()
+			}
+		}
+		ms.addAll(modCompsEnv(gc, env))
+		return ms
 	}
 	if ftc := e.funcTypeContract(cc); ftc != nil && ftc.HasMod {
 		env := map[string]types.Type{}
